@@ -34,5 +34,15 @@ func init() {
 			Old: "\t\t\terr := s.flush(ctx, toFlush...)\n\t\t\tif err == nil {\n\t\t\t\tbreak\n\t\t\t}", New: "\t\t\terr := s.flush(ctx, toFlush...)\n\t\t\tif nil == err {\n\t\t\t\tbreak\n\t\t\t}"},
 		Variant{Prop: "C06", Name: "benign-sentinel-cond-commuted", File: st,
 			Old: "\t\tif s.pending.Len() < s.Params.WriteBatchSize && headers != nil {", New: "\t\tif headers != nil && s.pending.Len() < s.Params.WriteBatchSize {"},
+		// the reset moved into flush: after a successful Commit it is the same behaviour, after any Commit it drops headers
+		Variant{Prop: "C06", Name: "benign-reset-inside-flush-after-successful-commit", File: st,
+			Old: "\t// finally, commit the batch on disk\n\treturn batch.Commit(ctx)\n}", New: "\t// finally, commit the batch on disk\n\tif err := batch.Commit(ctx); err != nil {\n\t\treturn err\n\t}\n\ts.pending.Reset()\n\treturn nil\n}",
+			More: []Edit{{File: st, Old: "\t\t// reset pending\n\t\ts.pending.Reset()\n", New: ""}}},
+		Variant{Prop: "C06", Name: "seed-reset-inside-flush-after-any-commit", File: st, Expect: "C06.b",
+			Old: "\t// finally, commit the batch on disk\n\treturn batch.Commit(ctx)\n}", New: "\t// finally, commit the batch on disk\n\terr = batch.Commit(ctx)\n\ts.pending.Reset()\n\treturn err\n}",
+			More: []Edit{{File: st, Old: "\t\t// reset pending\n\t\ts.pending.Reset()\n", New: ""}}},
+		Variant{Prop: "C12", Name: "seed-reset-inside-flush-after-any-commit", File: st, Expect: "C12.f",
+			Old: "\t// finally, commit the batch on disk\n\treturn batch.Commit(ctx)\n}", New: "\t// finally, commit the batch on disk\n\terr = batch.Commit(ctx)\n\ts.pending.Reset()\n\treturn err\n}",
+			More: []Edit{{File: st, Old: "\t\t// reset pending\n\t\ts.pending.Reset()\n", New: ""}}},
 	)
 }
